@@ -74,6 +74,17 @@ def scale_of(E, penv):
             pe = _penv_for(n, penv)
             b = rg.ref_box(n, pe)
             s = max(s, float(np.max(np.abs(b))))
+        elif n["t"] in ("translate", "rotate"):
+            # the motion itself: coordinates of the moved set and of the pivot enter the arithmetic
+            pe = _penv_for(n, penv)
+            N = max(rg.env_len(pe), 1) if pe else 1
+            try:
+                if n["t"] == "translate":
+                    s = max(s, s + float(np.max(np.abs(rg.pval(n["v"], pe, N)))))
+                elif n.get("around"):
+                    s = max(s, s + 2 * float(np.max(np.abs(rg.pval(n["around"], pe, N)))))
+            except KeyError:
+                pass
     return s
 
 
